@@ -135,6 +135,10 @@ class Impl(object):
                 self.current = {}
                 idx.reset()
                 return "ok"
+            if op == "qk":
+                # keys of the scored result: the model side answers with the C08/C20 scoring model read off
+                # the key-set model's state (theorem c20_scored_keys_are_c03_result)
+                return self.keys(idx.apply(dec(c[2])))
             if op in ("q", "nq"):
                 entry, q = c[1], dec(c[2])
                 if entry in ("contains", "eq", "notcontains", "noteq"):
@@ -182,7 +186,7 @@ def model_cmd(c):
         if c[2] == "n":
             return ["index", c[1], "none"]
         return ["index", c[1]] + list(c[3:])
-    if c[0] in ("q", "nq"):
+    if c[0] in ("q", "nq", "qk"):
         return [c[0], c[2]]
     if c[0] == "obsfresh":
         return ["obs"]
@@ -298,7 +302,10 @@ def q_or(rng, ctx, depth):
 def gen_queries(rng, ctx, n, cmds):
     for _ in range(n):
         q = q_or(rng, ctx, 0)
-        if rng.random() < 0.72:
+        r = rng.random()
+        if r < 0.12:
+            cmds.append(["qk", "apply", enc(q)])
+        elif r < 0.72:
             cmds.append(["q", rng.choice(QENTRY), enc(q)])
         else:
             cmds.append(["nq", rng.choice(NQENTRY), enc(q)])
@@ -383,7 +390,7 @@ def gen(rng, tier, idx):
         # the model's prefix scan sorts 17 000 words per glob: keep a few
         keep, n = [], 0
         for c in cmds:
-            if c[0] in ("q", "nq") and re.search(r"[*?]", dec(c[2])):
+            if c[0] in ("q", "nq", "qk") and re.search(r"[*?]", dec(c[2])):
                 n += 1
                 if n > nglob_budget[0]:
                     continue
@@ -406,9 +413,9 @@ def make_case(pipeline, backend, fam, vocab, cmds, cutoff=None):
 # ---------------------------------------------------------------------------- verdict helpers
 def classify(case, i, impl, model, spec):
     c = case["cmds"][i]
-    if c[0] in ("q", "nq") and "İ" in dec(c[2]):
+    if c[0] in ("q", "nq", "qk") and "İ" in dec(c[2]):
         return "D14"
-    if c[0] in ("q", "nq") and "Σ" in dec(c[2]) and "html" in cfgdict(case)["pipeline"]:
+    if c[0] in ("q", "nq", "qk") and "Σ" in dec(c[2]) and "html" in cfgdict(case)["pipeline"]:
         return "D22"
     return None
 
@@ -451,7 +458,7 @@ def features(case, outs):
         elif op == "reset":
             known = {}
             f.append("reset")
-        elif op in ("q", "nq"):
+        elif op in ("q", "nq", "qk"):
             q = dec(c[2])
             f.append("%s:%s:%s" % (op, c[1], "empty" if o == "{}" else "nonempty" if o.startswith("{") else o))
             if '"' in q or re.search(r"\w[-./']\w", q):
